@@ -254,6 +254,20 @@ def main():
             else:
                 dist("option-sweep:%s:right" % mode)
 
+    # rarely used keyword options of the reductions (where=, initial=, out=None, dtype=): raise or right
+    msk = onp.array([[True, False, True], [False, True, True]])
+    mr_ = onp.array([[0.5, 2.5, 1.5], [4.5, 3.5, 5.75]])
+    for rname in ("sum", "mean", "prod", "max", "min", "var", "std", "amax", "amin", "any-free nansum"):
+        rfun = getattr(anp, rname.split()[-1])
+        kws = [{"where": msk}, {"where": msk, "axis": 0}, {"where": msk[0]}, {"axis": 1, "where": msk, "keepdims": True}]
+        if rname in ("sum", "prod", "max", "min", "amax", "amin"):
+            kws += [{"initial": 2.0}, {"initial": 0.25, "axis": 0}, {"initial": 7.0, "where": msk}]
+        kws += [{"out": None}]
+        for kw in kws:
+            ror("option %s(x, %s)" % (rname, ", ".join("%s=%s" % (k, "mask" if k == "where" else v) for k, v in kw.items())),
+                lambda z, rfun=rfun, kw=kw: anp.reshape(rfun(z * z, **kw), (-1,)), mr_)
+    ror("option x.sum(where=mask)", lambda z: anp.reshape((z * z).sum(where=msk), (1,)), mr_)
+    ror("option add(x, x, where=mask) + 0", lambda z: anp.add(z, z * z, where=msk, out=None) * 1.0 if False else anp.reshape(anp.sum(anp.multiply(z, z, where=msk, out=onp.zeros((2, 3)))), (1,)), mr_)
     # configurations the pinned tree refuses: refusing is fine, so is a right answer; a wrong one is not
     xr = onp.array([0.7, -1.3, 2.1])
     mr = onp.array([[0.5, 2.5, 1.5], [4.5, 3.5, 5.75]])
